@@ -932,9 +932,14 @@ class QueryBuilder(Selectable, Term):  # type:ignore[misc]
         if self._update_table == current_table:
             self._update_table = new_table
 
+        # new Cte objects: the old ones are shared with the query this one was copied from
         self._with = [
-            alias_query.replace_table(current_table, new_table)  # type:ignore[operator]
-            for alias_query in self._with
+            Cte(
+                cte.name,
+                cte.query.replace_table(current_table, new_table) if cte.query is not None else None,
+                *cte.terms,
+            )
+            for cte in self._with
         ]
         self._selects = [select.replace_table(current_table, new_table) for select in self._selects]
         self._columns = [column.replace_table(current_table, new_table) for column in self._columns]
